@@ -135,6 +135,10 @@ def run(chk, facts, tier):
     chk.require(len(lines) >= 2, 'expected the general and the single-entry implementation of dequeue_indication_or_confirmation, found %d' % len(lines))
     for fn in fns:
         outp = fn.params[1]['n']
+        byref = fn.params[1]['t'].rstrip().endswith('&') and 'const' not in fn.params[1]['t']
+        if fn.kind in ('pattern', 'plain'):
+            chk.instance('indication-needs-no-outstanding', fn, 'outstanding index parameter `%s` : %s (impl at line %d)' % (outp, fn.params[1]['t'], fn.line), byref,
+                         '' if byref else 'the outstanding index is taken by value: handing out an indication is not recorded, a second indication is sent before the first is confirmed', key='byref@%s' % ('single' if fn.line > 280 else 'general'))
         found = 0
         for r in fn.returns():
             first, il = pair_first(r)
